@@ -5,8 +5,15 @@ import (
 	"context"
 	"os"
 	"os/exec"
+	"sync/atomic"
 	"time"
 )
+
+// cliTimeouts counts CLI runs that hit their harness-side time limit. A time limit is never evidence about the property
+// (a loaded machine can starve a process for a long time): handle() turns a violation reported by a case during which
+// a CLI run timed out into a harness error (exit 2), except for the hang checks, which establish a hang with a control
+// run of their own.
+var cliTimeouts atomic.Int64
 
 // E5: the gnark-mbu binary built by the driver from the current working tree.
 
@@ -38,6 +45,7 @@ func runCLI(timeout time.Duration, stdin []byte, env []string, args ...string) c
 	res := cliResult{Stdout: so.Bytes(), Stderr: se.Bytes(), Err: err}
 	if ctx.Err() == context.DeadlineExceeded {
 		res.TimedOut = true
+		cliTimeouts.Add(1)
 	}
 	if cmd.ProcessState != nil {
 		res.ExitCode = cmd.ProcessState.ExitCode()
@@ -45,4 +53,41 @@ func runCLI(timeout time.Duration, stdin []byte, env []string, args ...string) c
 		res.ExitCode = -1
 	}
 	return res
+}
+
+// runCLIUntil runs the binary until it exits, until stop() reports true (polled every 100 ms; the process is then
+// killed and stopped=true is returned), or until the time limit.
+func runCLIUntil(timeout time.Duration, stdin []byte, env []string, stop func() bool, args ...string) (res cliResult, stopped bool) {
+	ctx, cancel := context.WithTimeout(context.Background(), timeout)
+	defer cancel()
+	cmd := exec.CommandContext(ctx, cliPath(), args...)
+	cmd.Stdin = bytes.NewReader(stdin)
+	var so, se bytes.Buffer
+	cmd.Stdout, cmd.Stderr = &so, &se
+	cmd.Env = append(os.Environ(), env...)
+	if err := cmd.Start(); err != nil {
+		return cliResult{Err: err, ExitCode: -1}, false
+	}
+	done := make(chan error, 1)
+	go func() { done <- cmd.Wait() }()
+	tick := time.NewTicker(100 * time.Millisecond)
+	defer tick.Stop()
+	for {
+		select {
+		case err := <-done:
+			res = cliResult{Stdout: so.Bytes(), Stderr: se.Bytes(), Err: err, ExitCode: -1}
+			if cmd.ProcessState != nil {
+				res.ExitCode = cmd.ProcessState.ExitCode()
+			}
+			if ctx.Err() == context.DeadlineExceeded {
+				res.TimedOut = true
+			}
+			return res, stopped
+		case <-tick.C:
+			if !stopped && stop != nil && stop() {
+				stopped = true
+				cancel()
+			}
+		}
+	}
 }
